@@ -200,6 +200,12 @@ countnz(const int_t n, int_t *xprune, int_t *nnzL, int_t *nnzU, GlobalLU_t *Glu)
 
 
 
+static int cmp_lsub_start(const void *a, const void *b)
+{
+    const int_t *x = (const int_t *) a, *y = (const int_t *) b;
+    return (x[0] > y[0]) - (x[0] < y[0]);
+}
+
 /*
  * Fix up the data storage lsub for L-subscripts. It reclaims the
  * storage for the adjancency lists of the pruned graph, and applies
@@ -208,8 +214,9 @@ countnz(const int_t n, int_t *xprune, int_t *nnzL, int_t *nnzU, GlobalLU_t *Glu)
 void
 fixupL(const int_t n, const int_t *perm_r, GlobalLU_t *Glu)
 {
-    register int_t nsuper, fsupc, nextl, i, j, jstrt;
+    register int_t nsuper, fsupc, nextl, i, j, jstrt, k;
     register int_t *xsup, *xsup_end, *lsub, *xlsub, *xlsub_end;
+    int_t *order;
 
     if ( n <= 1 ) return;
 
@@ -220,11 +227,24 @@ fixupL(const int_t n, const int_t *perm_r, GlobalLU_t *Glu)
     xlsub_end = Glu->xlsub_end;
     nsuper    = Glu->supno[n];
     nextl     = 0;
+
+    /* The supernode numbers and the storage in lsub[] are handed out under
+       two different locks, so with several threads the supernodes need not
+       lie in lsub[] in the order of their numbers.  The compression below is
+       done in place and is only correct if the supernodes are visited in the
+       order of their positions in lsub[]. */
+    order = intMalloc(2 * (nsuper + 1));
+    for (i = 0; i <= nsuper; i++) {
+	order[2*i] = xlsub[xsup[i]];
+	order[2*i+1] = i;
+    }
+    qsort(order, nsuper + 1, 2 * sizeof(int_t), cmp_lsub_start);
     
     /* 
      * For each supernode ...
      */
-    for (i = 0; i <= nsuper; i++) {
+    for (k = 0; k <= nsuper; k++) {
+	i = order[2*k+1];
 	fsupc = xsup[i];
 	jstrt = xlsub[fsupc];
 	xlsub[fsupc] = nextl;
@@ -235,6 +255,7 @@ fixupL(const int_t n, const int_t *perm_r, GlobalLU_t *Glu)
 	xlsub_end[fsupc] = nextl;
     }
     xlsub[n] = nextl;
+    SUPERLU_FREE (order);
 
 #if ( PRNTlevel==1 )
     printf(".. # edges in supernodal graph of L = " IFMT "\n", nextl);
